@@ -136,30 +136,44 @@ func runDMTCase(c *Case, env *Env) *Result {
 		if len(list) >= 64 {
 			res.probe("list-of-64-or-more-entries")
 		}
-		var bm *roaring.Bitmap
-		var err error
-		pi := Guard(func() { bm, err = ws.Seg.DocsMatchingTerms(terms) })
-		where := fmt.Sprintf("seg %d (%s, %d docs) list #%d %v", ws.Idx, ws.Def.Store, len(ws.Docs), li, desc)
-		if pi != nil {
-			res.Fail = &Fail{Prop: "C18", Oracle: "dmt", Kind: "panic", Site: pi.Site, Detail: where + " panicked: " + pi.Msg}
-			return res
-		}
-		if err != nil {
-			res.Fail = &Fail{Prop: "C18", Oracle: "dmt", Kind: "error", Site: "DocsMatchingTerms", Detail: fmt.Sprintf("%s: %v", where, err)}
-			return res
-		}
-		if bm == nil {
-			res.Fail = mismatch("C18", "dmt", "nil-bitmap", where+": returned a nil bitmap without error")
-			return res
-		}
-		if int(bm.GetCardinality()) != len(want) {
-			res.Fail = mismatch("C18", "dmt", "set", fmt.Sprintf("%s: returned %d documents %v, want %d", where, bm.GetCardinality(), head(bm.ToArray(), 12), len(want)))
-			return res
-		}
-		for d := range want {
-			if !bm.Contains(d) {
-				res.Fail = mismatch("C18", "dmt", "set", fmt.Sprintf("%s: document %d missing from %v", where, d, head(bm.ToArray(), 12)))
+		// every list is asked twice; the bitmap returned the first time belongs to the
+		// caller, who scribbles on it (an index writer ORs further deletions into it)
+		// before asking again
+		for round := 0; round < 2; round++ {
+			var bm *roaring.Bitmap
+			var err error
+			pi := Guard(func() { bm, err = ws.Seg.DocsMatchingTerms(terms) })
+			where := fmt.Sprintf("seg %d (%s, %d docs) list #%d %v", ws.Idx, ws.Def.Store, len(ws.Docs), li, desc)
+			if round == 1 {
+				where += " (asked again after the caller modified the bitmap returned the first time)"
+			}
+			if pi != nil {
+				res.Fail = &Fail{Prop: "C18", Oracle: "dmt", Kind: "panic", Site: pi.Site, Detail: where + " panicked: " + pi.Msg}
 				return res
+			}
+			if err != nil {
+				res.Fail = &Fail{Prop: "C18", Oracle: "dmt", Kind: "error", Site: "DocsMatchingTerms", Detail: fmt.Sprintf("%s: %v", where, err)}
+				return res
+			}
+			if bm == nil {
+				res.Fail = mismatch("C18", "dmt", "nil-bitmap", where+": returned a nil bitmap without error")
+				return res
+			}
+			if int(bm.GetCardinality()) != len(want) {
+				res.Fail = mismatch("C18", "dmt", "set", fmt.Sprintf("%s: returned %d documents %v, want %d", where, bm.GetCardinality(), head(bm.ToArray(), 12), len(want)))
+				return res
+			}
+			for d := range want {
+				if !bm.Contains(d) {
+					res.Fail = mismatch("C18", "dmt", "set", fmt.Sprintf("%s: document %d missing from %v", where, d, head(bm.ToArray(), 12)))
+					return res
+				}
+			}
+			if li%2 == 0 {
+				bm.AddRange(0, uint64(len(ws.Docs))+3)
+			} else {
+				bm.Clear()
+				bm.Add(uint32(len(ws.Docs)) + 7)
 			}
 		}
 	}
